@@ -136,6 +136,17 @@ CLAIMED['C11'] = (
     're-parse, PRO framing, ClearKey endpoint, ContentProtection elements (see evidence not_covered).',
     'contract-based deductive verification (symbolic execution over fixed-length byte lists, z3), native replay')
 
+CLAIMED['C04'] = (
+    'DESIGN.md 4 C04',
+    'Reduced scope. Proof, per loop-free FullBox class (mfhd, mehd, trex, tfdt, tfhd) and for all field values legal for the '
+    'version/flags (tfhd: all 2^5 optional-field combinations as symbolic flag bits): every value written fits its field, '
+    'parsing the produced bytes returns exactly the written version, flags and fields and consumes them exactly; '
+    'TrackFragmentDecodeTimeBox switches to the 64-bit form exactly when the value needs it.',
+    'Trusted: byte-trace model of struct / FieldWriter / FieldReader (repository helpers, not verified themselves); box header '
+    'skipped via initial_data. Everything else in the statement (list-bearing boxes, headers, lazy mode, JSON, tree edits) '
+    'is not covered - see evidence not_covered.',
+    'contract-based deductive verification (encode-then-parse symbolic execution over a byte trace, z3), native replay')
+
 NOT_APPLICABLE = {
     'C05': 'XML documents come out of Jinja templates rendered by an external engine; no function contract reaches them and the app cannot be instantiated offline (flask_login missing).',
     'C07': 'Identity of string transducers (quote_plus, regex date parsing, split) over a registry built with getattr; SMT string solvers leave these undecided; a proof over only int/bool options would not decide the property.',
